@@ -1,8 +1,64 @@
 (** C07 - Handler failures stay isolated per object, keep its order, heal when faults end. *)
-From Hermes Require Import Model.Objects Model.Client Proofs.Client.
+From Hermes Require Import Model.Objects Model.Client Proofs.Client Proofs.ClientFK Proofs.ClientFail.
 
-(** the retry only ever offers the oldest queued entry of each object: a younger event
-    of an object is never applied before an older one *)
+(** a raising handler leaves every cache, the queue and the exception flag untouched: its only
+    trace is the handler log (with the outcome) and the progress marker - for each of the
+    five operations, in every state *)
+Theorem C07_added_handler_raises : forall outcome st lev,
+  outcome (ncall st) <> HOk ->
+  exists st1, local_added outcome st lev false = (st1, false) /\ same_data st1 st /\
+    calls st1 = calls st ++ [Call HAdded (ce_t lev) (ce_k lev) (ce_kind lev) (Some (new_obj (ce_kind lev))) None
+                                  (curstep st) (curpartial st) (is_retry st) (outcome (ncall st))].
+Proof. exact added_handler_raises. Qed.
+Print Assumptions C07_added_handler_raises.
+Theorem C07_modified_handler_raises : forall outcome st lev old,
+  outcome (ncall st) <> HOk -> l_live st !! ce_id lev = Some old ->
+  exists st1, local_modified outcome st lev false = (st1, false) /\ same_data st1 st /\
+    calls st1 = calls st ++ [Call HModified (ce_t lev) (ce_k lev) (ce_kind lev) (Some (apply_mod (the_diff (ce_kind lev)) old)) (Some old)
+                                  (curstep st) (curpartial st) (is_retry st) (outcome (ncall st))].
+Proof. exact modified_handler_raises. Qed.
+Print Assumptions C07_modified_handler_raises.
+Theorem C07_removed_handler_raises : forall outcome st lev,
+  outcome (ncall st) <> HOk ->
+  exists st1, local_removed outcome st lev false = (st1, false) /\ same_data st1 st /\
+    calls st1 = calls st ++ [Call HRemoved (ce_t lev) (ce_k lev) (ce_kind lev) None
+                                  (option_map snd (lookup2 (l_live st) (l_trash st) (ce_id lev)))
+                                  (curstep st) (curpartial st) (is_retry st) (outcome (ncall st))].
+Proof. exact removed_handler_raises. Qed.
+Print Assumptions C07_removed_handler_raises.
+Theorem C07_trashed_handler_raises : forall outcome ct st lev,
+  outcome (ncall st) <> HOk ->
+  exists st1, local_trashed outcome ct st lev false = (st1, false) /\ same_data st1 st /\
+    calls st1 = calls st ++ [Call HTrashed (ce_t lev) (ce_k lev) (ce_kind lev) None (l_live st !! ce_id lev)
+                                  (curstep st) (curpartial st) (is_retry st) (outcome (ncall st))].
+Proof. exact trashed_handler_raises. Qed.
+Print Assumptions C07_trashed_handler_raises.
+Theorem C07_recycled_handler_raises : forall c outcome ct st lev tr0,
+  outcome (ncall st) <> HOk -> l_trash st !! ce_id lev = Some tr0 ->
+  exists st1, local_recycled c outcome ct st lev false = (st1, false) /\ same_data st1 st /\
+    calls st1 = calls st ++ [Call HRecycled (ce_t lev) (ce_k lev) (KAdded (del_ts ct tr0)) (Some (del_ts ct tr0)) None
+                                  (curstep st) (curpartial st) (is_retry st) (outcome (ncall st))].
+Proof. exact recycled_handler_raises. Qed.
+Print Assumptions C07_recycled_handler_raises.
+
+(** a later event for an object that has queue entries invokes no handler and is queued last *)
+Theorem C07_same_object_queues_behind : forall c outcome f st rev,
+  mapped c (ce_t rev) = true -> q_has_obj (queue st) (ce_id rev) = true ->
+  let r := process_remote c outcome (S f) st rev None true false in
+  calls (fst r) = calls st /\ ncall (fst r) = ncall st /\ snd r = true /\
+  (cc_remed c = RDisabled ->
+   forall l, convert c true rev = Some l ->
+   exists e, queue (fst r) = queue st ++ [e] /\ q_remote e = Some rev /\ q_num e = q_next_num (queue st)).
+Proof. exact same_object_event_deferred. Qed.
+Print Assumptions C07_same_object_queues_behind.
+
+(** the simulated pass that follows a failure only moves the expected-state caches *)
+Theorem C07_simulation_keeps_target_side : forall c outcome f st rev lev enq,
+  same_log (fst (process_remote c outcome f st rev lev enq true)) st.
+Proof. exact process_remote_sim. Qed.
+Print Assumptions C07_simulation_keeps_target_side.
+
+(** the retry offers only the oldest entry of each object: its events are never re-ordered *)
 Theorem C07_retry_offers_oldest_only : forall q e e',
   q_is_oldest q e = true -> In e' q -> ce_id (q_local e') = ce_id (q_local e) -> (q_num e <= q_num e')%Z.
 Proof. exact oldest_is_minimal. Qed.
